@@ -765,10 +765,15 @@ spif_linked_list_insert_at(spif_linked_list_t self, spif_obj_t obj, spif_listidx
         /* Negative indexes go backward from the end of the list. */
         idx += self->len;
     }
-    REQUIRE_RVAL((idx + 1) >= 0, FALSE);
+    REQUIRE_RVAL(idx >= 0, FALSE);
 
-    if (idx == 0 || SPIF_LINKED_LIST_ITEM_ISNULL(self->head)) {
+    if (idx == 0) {
         return spif_linked_list_prepend(self, obj);
+    }
+    if (SPIF_LINKED_LIST_ITEM_ISNULL(self->head)) {
+        /* Inserting beyond the end of an empty list:  the padding starts at the head. */
+        self->head = spif_linked_list_item_new();
+        self->len++;
     }
     for (current = self->head, i = 1; current->next && i < idx; i++, current = current->next);
     for (; i < idx; i++, current = current->next) {
